@@ -18,9 +18,11 @@ TRUSTED = [
 
 
 def native_plan(tier):
+    bin_dom = 'every sequence of <= %d events {derive (a, b) over 4 items, end of iteration, end of stratum} + a closing stratum end, binary provider'
+    ter_dom = 'every sequence of <= %d events {derive (k, a, b) over 2 keys x 3 items, end of iteration, end of stratum} + a closing stratum end, ternary provider'
     if tier == 'thorough':
-        return [('eqrel_protocol_le5', ';'.join(['0-17'] * 5), 'every sequence of <= 5 events {derive (a, b) over 4 items, end of iteration} + 2 closing iterations')]
-    return [('eqrel_protocol_le4', ';'.join(['0-17'] * 4), 'every sequence of <= 4 events {derive (a, b) over 4 items, end of iteration} + 2 closing iterations')]
+        return [('eqrel_protocol_le5', ';'.join(['0-18'] * 5), bin_dom % 5), ('eqrel_ternary_protocol_le5', ';'.join(['0-20'] * 5), ter_dom % 5)]
+    return [('eqrel_protocol_le4', ';'.join(['0-18'] * 4), bin_dom % 4), ('eqrel_ternary_protocol_le4', ';'.join(['0-20'] * 4), ter_dom % 4)]
 
 
 def run(pid, tier):
@@ -34,11 +36,13 @@ def run(pid, tier):
         try:
             crate, _ = unit_uf.prepare_crate()
             binary, _ = kani.build_native(crate, 'ufcheck')
-            for h, alpha, dom in native_plan(tier):
-                r = kani.native_exhaust(binary, h, alpha, timeout=300 if tier == 'quick' else 1500)
-                native[h] = dict(r, domain=dom)
-                for f in r['failures']:
-                    native_failures.append({'harness': h, 'obligation': f['obligation'], 'input': f['input']})
+            def one(p):
+                return p, kani.native_exhaust(binary, p[0], p[1], timeout=300 if tier == 'quick' else 2400)
+            with ThreadPoolExecutor(max_workers=2) as ex2:
+                for (h, alpha, dom), r in ex2.map(one, native_plan(tier)):
+                    native[h] = dict(r, domain=dom)
+                    for f in r['failures']:
+                        native_failures.append({'harness': h, 'obligation': f['obligation'], 'input': f['input']})
         except (common.Inconclusive, LostAnchor) as exn:
             out.inconclusive.append('native eqrel protocol companion could not run: %s' % str(exn)[-1500:])
         v = fv.result()
